@@ -98,7 +98,7 @@ Record FRel (p : fpend) (st : wstate) (m : m14) : Prop := {
               (exists m0, In (ILock m0 (LPqCancelSet q)) (tcont (thr st t))) \/ pcancel (pps st q) = true;
   f_own_cs : forall t m0 q, In (ILock m0 (LPqCancelSet q)) (tcont (thr st t)) -> t = main /\ tcur (thr st t) = Some (CPDrop q) /\ pexists (pps st q) = true;
   f_late_cur : forall t, is_late m t -> exists c, tcur (thr st t) = Some c /\ wcmd c;
-  f_late_in : forall t, In t (map fst (m14_late m)) -> tcur (thr st t) <> None /\ wkr st t;
+  f_late_in : forall t, In t (map fst (m14_late m)) -> (exists c, tcur (thr st t) = Some c /\ wcmd c) /\ wkr st t;
   f_late_nd : NoDup (map fst (m14_late m));
   f_own_ret : forall t m0 v, In (IUnlock m0 (URet v)) (tcont (thr st t)) ->
               (forall q x, tcur (thr st t) <> Some (CPSend q x)) /\ (forall z, v = RVal z -> tcur (thr st t) = Some CRecv /\ wkr st t);
@@ -347,7 +347,7 @@ Section FStep.
       destruct (f_dropcmd _ _ _ R u q Hcu Np) as [A|A]; [left; exact A|right; apply Pc; exact A].
     - intros u m0 q Hin. destruct (Nat.eq_dec u t) as [->|Hu]; [apply (O_own_cs m0 q Hin)|]. rewrite (Co u Hu) in Hin. rewrite Cu, Pe. apply (f_own_cs _ _ _ R u m0 q Hin).
     - intros u L. apply La in L. rewrite Cu. apply (f_late_cur _ _ _ R u L).
-    - intros u. rewrite M4, Cu. intro Hin. destruct (f_late_in _ _ _ R u Hin) as [A B]. split; [exact A|apply fs_wkr; exact B].
+    - intros u. rewrite M4. intro Hin. destruct (f_late_in _ _ _ R u Hin) as [[c0 [A1 A2]] B]. split; [exists c0; rewrite Cu; auto|apply fs_wkr; exact B].
     - rewrite M4. apply (f_late_nd _ _ _ R).
     - intros u m0 v Hin. destruct (Nat.eq_dec u t) as [->|Hu]; [apply (O_own_ret m0 v Hin)|]. rewrite (Co u Hu) in Hin. rewrite Cu. destruct (f_own_ret _ _ _ R u m0 v Hin) as [A B]. split; [exact A|]. intros z Ez. destruct (B z Ez) as [B1 B2]. split; [exact B1|apply fs_wkr; exact B2].
     - intros u j Hin. destruct (Nat.eq_dec u t) as [->|Hu]; [apply (O_own_pr j Hin)|]. rewrite (Co u Hu) in Hin. rewrite Cu, Tp. destruct (f_own_pr _ _ _ R u j Hin) as [A [B C]]. split; [intros m0 q E; destruct (A m0 q E) as [A1 A2]; split; [apply fs_wkr; exact A1|exact A2]|split; [intros m0 q E; destruct (B m0 q E) as [B1 B2]; split; [apply fs_wkr; exact B1|exact B2]|intros m0 q x E; destruct (C m0 q x E) as [C1 C2]; split; [apply fs_wkr; exact C1|exact C2]]].
@@ -1023,7 +1023,7 @@ Proof.
   - intros t q. rewrite Cu, Co, Epp. apply (f_dropcmd _ _ _ R).
   - intros t m0 q. rewrite Co, Cu, Epp. apply (f_own_cs _ _ _ R).
   - intros t. rewrite Cu. apply (f_late_cur _ _ _ R).
-  - intros t. rewrite Cu. intro Hin. destruct (f_late_in _ _ _ R t Hin) as [A B]. split; [exact A|apply Wk; exact B].
+  - intros t Hin. destruct (f_late_in _ _ _ R t Hin) as [[c0 [A1 A2]] B]. split; [exists c0; rewrite Cu; auto|apply Wk; exact B].
   - apply (f_late_nd _ _ _ R).
   - intros t m0 v. rewrite Co, Cu. intro Hin. destruct (f_own_ret _ _ _ R t m0 v Hin) as [A B]. split; [exact A|]. intros z Ez. destruct (B z Ez) as [B1 B2]. split; [exact B1|apply Wk; exact B2].
   - intros t j. rewrite Co, Cu, Tp. intro Hin. destruct (f_own_pr _ _ _ R t j Hin) as [A [B C]].
@@ -1136,7 +1136,7 @@ Section FIdle.
   Hypothesis O_own_cs : forall m0 q, In (ILock m0 (LPqCancelSet q)) (tcont (thr st' t)) -> t = main /\ c = CPDrop q /\ pexists (pps st q) = true.
   Hypothesis O_late_cur : is_late m' t -> wcmd c.
   Hypothesis O_late_nd : NoDup (map fst (m14_late m')).
-  Hypothesis O_late_in : In t (map fst (m14_late m')) -> wkr st t.
+  Hypothesis O_late_in : In t (map fst (m14_late m')) -> wkr st t /\ wcmd c.
   Hypothesis O_own_ret : forall m0 v, ~ In (IUnlock m0 (URet v)) (tcont (thr st' t)).
   Hypothesis O_own_pr : forall j, In j (tcont (thr st' t)) ->
     (forall m0 q, j = ILock m0 (LPqRecv q) \/ j = ICvReacq q -> wkr st t /\ c = CRecv /\ q = tpipe (thr st t)) /\
@@ -1174,8 +1174,8 @@ Section FIdle.
       rewrite (Ho u Hu) in *. apply (f_own_cs _ _ _ R u m0 q Hin).
     - intros u L. destruct (Nat.eq_dec u t) as [->|Hu]; [exists c; split; [exact Hcu|apply O_late_cur; exact L]|].
       apply (La u Hu) in L. rewrite (Ho u Hu). apply (f_late_cur _ _ _ R u L).
-    - intros u Hin. destruct (Nat.eq_dec u t) as [->|Hu]; [rewrite Hcu; split; [discriminate|apply Wk; apply O_late_in; exact Hin]|]. rewrite (Ho u Hu).
-      cut (tcur (thr st u) <> None /\ wkr st u); [intros [A B]; split; [exact A|apply Wk; exact B]|]. apply (f_late_in _ _ _ R u).
+    - intros u Hin. destruct (Nat.eq_dec u t) as [->|Hu]; [destruct (O_late_in Hin) as [Z1 Z2]; split; [exists c; auto|apply Wk; exact Z1]|]. rewrite (Ho u Hu).
+      cut ((exists c0, tcur (thr st u) = Some c0 /\ wcmd c0) /\ wkr st u); [intros [A B]; split; [exact A|apply Wk; exact B]|]. apply (f_late_in _ _ _ R u).
       destruct (get_tid u (m14_late m)) eqn:G; [|exfalso; apply get_tid_none in Hin; [exact Hin|rewrite (M4 u Hu); exact G]].
       destruct (in_dec Nat.eq_dec u (map fst (m14_late m))) as [Y|Y]; [exact Y|]. apply get_tid_none in Y. rewrite Y in G. discriminate G.
     - exact O_late_nd.
@@ -1227,7 +1227,7 @@ Proof.
   - intros m0 q Hin. exfalso. exact (proj1 (proj2 (proj2 (proj2 (proj2 (fq_facts _ (Fqn _ Hin)))))) m0 q eq_refl).
   - intro L. exfalso. exact (NoLate m' M4 L).
   - rewrite M4. apply (f_late_nd _ _ _ R).
-  - rewrite M4. intro Hin. exfalso. apply (proj1 (f_late_in _ _ _ R t Hin)). exact Hcu0.
+  - rewrite M4. intro Hin. exfalso. destruct (f_late_in _ _ _ R t Hin) as [[c9 [E9 _]] _]; rewrite Hcu0 in E9; discriminate E9.
   - intros m0 v Hin. exact (proj1 (proj2 (proj2 (proj2 (proj2 (proj2 (fq_facts _ (Fqn _ Hin))))))) m0 v eq_refl).
   - intros j Hin. destruct (fq_facts _ (Fqn _ Hin)) as [_ [_ [_ [_ [_ [_ [Z1 [Z2 [Z3 Z4]]]]]]]]].
     split; [intros m0 q [E|E]; exfalso; [exact (Z1 m0 q E)|exact (Z2 q E)]|split; [intros m0 q E; exfalso; exact (Z3 m0 q E)|intros m0 q x E; exfalso; exact (Z4 m0 q x E)]].
@@ -1285,7 +1285,7 @@ Proof.
   - intros u m0 q0 Hin. destruct (Nat.eq_dec u u0) as [->|Ne]; [rewrite Hc0' in Hin; destruct Hin|]. rewrite (Ho u Ne) in *.
     destruct (f_own_cs _ _ _ R u m0 q0 Hin) as [A [B C]]. rewrite (Pex q0 C). auto.
   - intros u L. destruct (Nat.eq_dec u u0) as [->|Ne]; [exfalso; exact (NoL L)|]. rewrite (Ho u Ne). apply (f_late_cur _ _ _ R u L).
-  - intros u Hin. destruct (Nat.eq_dec u u0) as [->|Ne]; [exfalso; apply (proj1 (f_late_in _ _ _ R u0 Hin)); exact Hcu0|]. rewrite (Ho u Ne).
+  - intros u Hin. destruct (Nat.eq_dec u u0) as [->|Ne]; [exfalso; destruct (f_late_in _ _ _ R u0 Hin) as [[c9 [E9 _]] _]; rewrite Hcu0 in E9; discriminate E9|]. rewrite (Ho u Ne).
     destruct (f_late_in _ _ _ R u Hin) as [A B]. split; [exact A|apply Wk; right; split; [exact Ne|exact B]].
   - apply (f_late_nd _ _ _ R).
   - intros u m0 v Hin. destruct (Nat.eq_dec u u0) as [->|Ne]; [rewrite Hc0' in Hin; destruct Hin|]. rewrite (Ho u Ne) in *.
@@ -1367,8 +1367,8 @@ Proof.
   - intros q Y. subst c. destruct Wc.
   - intros m0 q Hin. exfalso. rewrite Hc2 in Hin. destruct Hin as [Y|[]]. exact (Ia2 m0 q Y).
   - intros _. exact Wc.
-  - rewrite M4. cbn [map fst]. constructor; [|apply (f_late_nd _ _ _ R)]. intro Hin. apply (proj1 (f_late_in _ _ _ R t Hin)). exact Hcu0.
-  - intros _. exact W.
+  - rewrite M4. cbn [map fst]. constructor; [|apply (f_late_nd _ _ _ R)]. intro Hin. destruct (f_late_in _ _ _ R t Hin) as [[c9 [E9 _]] _]; rewrite Hcu0 in E9; discriminate E9.
+  - intros _. split; [exact W|exact Wc].
   - intros m0 v Hin. rewrite Hc2 in Hin. destruct Hin as [Y|[]]. exact (Nu m0 v Y).
   - intros j Hin. rewrite Hc2 in Hin. destruct Hin as [<-|[]]. destruct Own as [O1 [O2 O3]].
     split; [intros m0 q Y; destruct (O1 m0 q Y); auto|split; [intros m0 q Y; destruct (O2 m0 q Y); auto|intros m0 q x Y; destruct (O3 m0 q x Y); auto]].
@@ -1525,7 +1525,7 @@ Proof.
       * intros m0 q Hin. rewrite Hc1 in Hin. destruct Hin.
       * intro L. exfalso. exact (NoLate L).
       * rewrite M4. apply (f_late_nd _ _ _ R).
-      * rewrite M4. intro Hin. exfalso. apply (proj1 (f_late_in _ _ _ R t Hin)). exact Hcu0.
+      * rewrite M4. intro Hin. exfalso. destruct (f_late_in _ _ _ R t Hin) as [[c9 [E9 _]] _]; rewrite Hcu0 in E9; discriminate E9.
       * intros m0 v Hin. rewrite Hc1 in Hin. destruct Hin.
       * intros j Hin. rewrite Hc1 in Hin. destruct Hin.
       * intros [].
@@ -1562,7 +1562,7 @@ Proof.
       * intros m0 q Hin. rewrite Hc2 in Hin. destruct Hin as [Y|[]]. discriminate Y.
       * intro L. exfalso. exact (NoLate L).
       * rewrite M4. apply (f_late_nd _ _ _ R).
-      * rewrite M4. intro Hin. exfalso. apply (proj1 (f_late_in _ _ _ R main Hin)). exact Hcu0.
+      * rewrite M4. intro Hin. exfalso. destruct (f_late_in _ _ _ R main Hin) as [[c9 [E9 _]] _]; pose proof (eq_trans (eq_sym E9) Hcu0) as Z9; discriminate Z9.
       * intros m0 v Hin. rewrite Hc2 in Hin. destruct Hin as [Y|[]]. discriminate Y.
       * intros j Hin. rewrite Hc2 in Hin. destruct Hin as [<-|[]].
         split; [intros m0 q [Y|Y]; discriminate Y|split; [intros m0 q Y; discriminate Y|intros m0 q y Y; discriminate Y]].
@@ -1598,7 +1598,7 @@ Proof.
       * intros m0 q Hin. rewrite Hc1 in Hin. destruct Hin.
       * intro L. exfalso. exact (NoLate L).
       * rewrite M4. apply (f_late_nd _ _ _ R).
-      * rewrite M4. intro Hin. exfalso. apply (proj1 (f_late_in _ _ _ R t Hin)). exact Hcu0.
+      * rewrite M4. intro Hin. exfalso. destruct (f_late_in _ _ _ R t Hin) as [[c9 [E9 _]] _]; rewrite Hcu0 in E9; discriminate E9.
       * intros m0 v Hin. rewrite Hc1 in Hin. destruct Hin.
       * intros j Hin. rewrite Hc1 in Hin. destruct Hin.
       * intros [].
@@ -1633,7 +1633,7 @@ Proof.
       * intros m0 q Hin. rewrite Hc2 in Hin. destruct Hin as [Y|[]]. inversion Y; subst. auto.
       * intro L. exfalso. exact (NoLate L).
       * rewrite M4. apply (f_late_nd _ _ _ R).
-      * rewrite M4. intro Hin. exfalso. apply (proj1 (f_late_in _ _ _ R main Hin)). exact Hcu0.
+      * rewrite M4. intro Hin. exfalso. destruct (f_late_in _ _ _ R main Hin) as [[c9 [E9 _]] _]; pose proof (eq_trans (eq_sym E9) Hcu0) as Z9; discriminate Z9.
       * intros m0 v Hin. rewrite Hc2 in Hin. destruct Hin as [Y|[]]. discriminate Y.
       * intros j Hin. rewrite Hc2 in Hin. destruct Hin as [<-|[]].
         split; [intros m0 q [Y|Y]; discriminate Y|split; [intros m0 q Y; discriminate Y|intros m0 q y Y; discriminate Y]].
@@ -1653,7 +1653,7 @@ Proof.
         [reflexivity|intros u Hu; unfold s1; thr_simpl|exact Hcu1|unfold s1; thr_simpl|intro q; repeat split; auto|exact M2|exact M3|intros u _; rewrite M4; reflexivity
         |intros u q y Y; discriminate Y|intros u q Y; discriminate Y| | |intros W; exfalso; exact (Nw W)|intros W; exfalso; exact (Nw W)
         |intros m0 q y Hin; rewrite Hc1 in Hin; destruct Hin|intros q y Y; discriminate Y|intros q Y; discriminate Y|intros m0 q Hin; rewrite Hc1 in Hin; destruct Hin
-        |intro L0; exfalso; exact (NoLate L0)|rewrite M4; apply (f_late_nd _ _ _ R)|rewrite M4; intro Hin; exfalso; apply (proj1 (f_late_in _ _ _ R t Hin)); exact Hcu0|intros m0 v Hin; rewrite Hc1 in Hin; destruct Hin|intros j Hin; rewrite Hc1 in Hin; destruct Hin
+        |intro L0; exfalso; exact (NoLate L0)|rewrite M4; apply (f_late_nd _ _ _ R)|rewrite M4; intro Hin; exfalso; destruct (f_late_in _ _ _ R t Hin) as [[c9 [E9 _]] _]; rewrite Hcu0 in E9; discriminate E9|intros m0 v Hin; rewrite Hc1 in Hin; destruct Hin|intros j Hin; rewrite Hc1 in Hin; destruct Hin
         |intros _; rewrite Hc1; split; [cbn; lia|cbn; intro Y; lia]].
       * intros q Hq. unfold dps. rewrite M1, Mc1. destruct (f_noex _ _ _ R q Hq) as [A [_ [_ [_ [_ [_ B]]]]]]. auto.
       * intros u W. cbn zeta. unfold dps. rewrite M1, Mc1. pose proof (f_ps _ _ _ R u W) as L1. cbn zeta in L1. unfold dps in L1. rewrite L1.
@@ -1675,7 +1675,7 @@ Proof.
         [reflexivity|intros u Hu; unfold s1; thr_simpl|exact Hcu1|unfold s1; thr_simpl|intro q; repeat split; auto|exact M2|exact M3|intros u _; rewrite M4; reflexivity
         |intros u q y Y; discriminate Y|intros u q Y; discriminate Y| | |intros W; exfalso; exact (Nw W)|intros W; exfalso; exact (Nw W)
         |intros m0 q y Hin; rewrite Hc1 in Hin; destruct Hin|intros q y Y; discriminate Y|intros q Y; discriminate Y|intros m0 q Hin; rewrite Hc1 in Hin; destruct Hin
-        |intro L0; exfalso; exact (NoLate L0)|rewrite M4; apply (f_late_nd _ _ _ R)|rewrite M4; intro Hin; exfalso; apply (proj1 (f_late_in _ _ _ R t Hin)); exact Hcu0|intros m0 v Hin; rewrite Hc1 in Hin; destruct Hin|intros j Hin; rewrite Hc1 in Hin; destruct Hin
+        |intro L0; exfalso; exact (NoLate L0)|rewrite M4; apply (f_late_nd _ _ _ R)|rewrite M4; intro Hin; exfalso; destruct (f_late_in _ _ _ R t Hin) as [[c9 [E9 _]] _]; rewrite Hcu0 in E9; discriminate E9|intros m0 v Hin; rewrite Hc1 in Hin; destruct Hin|intros j Hin; rewrite Hc1 in Hin; destruct Hin
         |intros _; rewrite Hc1; split; [cbn; lia|cbn; intro Y; lia]].
       * intros q Hq. unfold dps. rewrite M1, Mc1. destruct (f_noex _ _ _ R q Hq) as [A [_ [_ [_ [_ [_ B]]]]]]. auto.
       * intros u W. cbn zeta. unfold dps. rewrite M1, Mc1. pose proof (f_ps _ _ _ R u W) as L1. cbn zeta in L1. unfold dps in L1. rewrite L1.
@@ -1697,7 +1697,7 @@ Proof.
         [reflexivity|intros u Hu; unfold s1; thr_simpl|exact Hcu1|unfold s1; thr_simpl|intro q; repeat split; auto|exact M2|exact M3|intros u _; rewrite M4; reflexivity
         |intros u q y Y; discriminate Y|intros u q Y; discriminate Y| | |intros W; exfalso; exact (Nw W)|intros W; exfalso; exact (Nw W)
         |intros m0 q y Hin; rewrite Hc1 in Hin; destruct Hin|intros q y Y; discriminate Y|intros q Y; discriminate Y|intros m0 q Hin; rewrite Hc1 in Hin; destruct Hin
-        |intro L0; exfalso; exact (NoLate L0)|rewrite M4; apply (f_late_nd _ _ _ R)|rewrite M4; intro Hin; exfalso; apply (proj1 (f_late_in _ _ _ R t Hin)); exact Hcu0|intros m0 v Hin; rewrite Hc1 in Hin; destruct Hin|intros j Hin; rewrite Hc1 in Hin; destruct Hin
+        |intro L0; exfalso; exact (NoLate L0)|rewrite M4; apply (f_late_nd _ _ _ R)|rewrite M4; intro Hin; exfalso; destruct (f_late_in _ _ _ R t Hin) as [[c9 [E9 _]] _]; rewrite Hcu0 in E9; discriminate E9|intros m0 v Hin; rewrite Hc1 in Hin; destruct Hin|intros j Hin; rewrite Hc1 in Hin; destruct Hin
         |intros _; rewrite Hc1; split; [cbn; lia|cbn; intro Y; lia]].
       * intros q Hq. unfold dps. rewrite M1, Mc1. destruct (f_noex _ _ _ R q Hq) as [A [_ [_ [_ [_ [_ B]]]]]]. auto.
       * intros u W. cbn zeta. unfold dps. rewrite M1, Mc1. pose proof (f_ps _ _ _ R u W) as L1. cbn zeta in L1. unfold dps in L1. rewrite L1.
@@ -1878,7 +1878,7 @@ Proof.
   - intros u q Hq Np. destruct (Nat.eq_dec u t) as [->|Hu]; [rewrite Tcu in Hq; discriminate Hq|]. rewrite (Ho u Hu) in *. apply (f_dropcmd _ _ _ R u q Hq Np).
   - intros u m0 q Hin. destruct (Nat.eq_dec u t) as [->|Hu]; [exfalso; exact (proj1 (proj2 (proj2 (proj2 (proj2 (fq_facts _ (Fq _ Hin)))))) m0 q eq_refl)|]. rewrite (Ho u Hu) in *. apply (f_own_cs _ _ _ R u m0 q Hin).
   - intros u. rewrite Cu. apply (f_late_cur _ _ _ R).
-  - intros u Hin. rewrite Cu. destruct (f_late_in _ _ _ R u Hin) as [A B]. split; [exact A|apply Wk; exact B].
+  - intros u Hin. destruct (f_late_in _ _ _ R u Hin) as [[c0 [A1 A2]] B]. split; [exists c0; rewrite Cu; auto|apply Wk; exact B].
   - apply (f_late_nd _ _ _ R).
   - intros u m0 v Hin. destruct (Nat.eq_dec u t) as [->|Hu]; [exfalso; exact (proj1 (proj2 (proj2 (proj2 (proj2 (proj2 (fq_facts _ (Fq _ Hin))))))) m0 v eq_refl)|]. rewrite (Ho u Hu) in *.
     destruct (f_own_ret _ _ _ R u m0 v Hin) as [A B]. split; [exact A|]. intros z Ez. destruct (B z Ez) as [B1 B2]. split; [exact B1|apply Wk; exact B2].
@@ -1890,3 +1890,22 @@ Proof.
         [intros m0 q Y; destruct (B m0 q Y) as [B1 B2]; split; [apply Wk; exact B1|exact B2]|intros m0 q x Y; destruct (C m0 q x Y) as [C1 C2]; split; [apply Wk; exact C1|exact C2]]].
   - intros u c Hq Wc. destruct (Nat.eq_dec u t) as [->|Hu]; [rewrite Tcu in Hq; discriminate Hq|]. rewrite (Ho u Hu) in *. apply (f_pr _ _ _ R u c Hq Wc).
 Qed.
+
+(** ** the real monitor step and the step of the replies half coincide where the flag is not raised *)
+Lemma step_bad_nonret : forall m t e, (forall v, e <> ERet v) -> is_reply e = false -> m14_bad (m14_step m (t, e)) = m14_bad m.
+Proof.
+  intros m t e Nr Ni. unfold m14_step. destruct e; try reflexivity; try discriminate Ni.
+  - destruct c; try reflexivity; destruct (get_tid t (m14_owner m)); reflexivity.
+  - exfalso. eapply Nr. reflexivity.
+  - destruct (get_tid t (m14_owner m)); reflexivity.
+Qed.
+Lemma r_eq_step : forall m t e, (is_reply e = false -> m14_bad (m14_step m (t, e)) = m14_bad m) -> m14r_step m (t, e) = m14_step m (t, e).
+Proof.
+  intros m t e H. unfold m14r_step. cbn [snd]. destruct (is_reply e) eqn:Ei; [reflexivity|]. rewrite <- (H eq_refl). apply setbad_id.
+Qed.
+Lemma r_eq_fold : forall t ev m, (forall e, In e ev -> forall v, e <> ERet v) -> fold_left m14r_step (evs t ev) m = fold_left m14_step (evs t ev) m.
+Proof.
+  induction ev as [|e ev IH]; intros m H; [reflexivity|]. cbn [evs map fold_left]. fold (evs t ev).
+  rewrite r_eq_step by (intro Ni; apply step_bad_nonret; [apply H; left; reflexivity|exact Ni]). apply IH. intros; apply H; right; assumption.
+Qed.
+
